@@ -317,8 +317,10 @@ def main(argv=None):
             print("HARNESS-ERROR: %s" % e)
             return 2
         if res.violations:
-            for v in res.violations:
+            for v in res.violations[:5]:
                 print("  violated %s: %s" % (v.bucket, v.detail))
+            if len(res.violations) > 5:
+                print("  ... %d more" % (len(res.violations) - 5))
             print("VIOLATION property=%s replay=%s" % (pid, a.replay))
             return 1
         print("replay %s: property held" % a.replay)
